@@ -113,6 +113,9 @@ def full_spec(doc_seed, base, kind):
     if kind in ("v10json", "v10yaml") and spec["secs"] and rng.random() < 0.3:
         spec["empty_keys"] = True       # 'properties:' / 'sections:' present and empty
         feats.append("empty-keys")
+    if kind == "v10yaml" and rng.random() < 0.25:
+        spec["py2_tags"] = True
+        feats.append("py2-yaml-tags")
     if kind == "v10xml" and rng.random() < 0.2:
         spec["empty_elements"] = True        # <repository/> and <include></include> without content
         feats.append("empty-elements")
@@ -275,6 +278,7 @@ def generate(run_seed):
     wrng = seeds.Streams(run_seed).get("warmup")
     if wrng.random() < 0.2:
         run["warmup"] = wrng.choice(["-r", "flat"])
+        run["warmup_keeps"] = wrng.random() < 0.5
     if tool == "formatconverter":
         run["target"] = rng.choice(FC_TARGETS)
         run["api"] = rng.choice(["convert", "convert_dir"])
@@ -303,6 +307,10 @@ def materialise(odml, root, files):
             text = json.dumps(dict10(spec), indent=2)
         elif kind == "v10yaml":
             text = yaml.safe_dump(dict10(spec, dates_as_objects=True), default_flow_style=False)
+            if spec.get("py2_tags"):
+                # as python-odml wrote YAML under Python 2: text scalars carry a tag
+                text = re.sub(r"(?m)^(\s*(?:- )?(?:author|name|type): )([A-Za-z0-9 ]+)$",
+                              r"\1!!python/unicode '\2'", text)
         elif kind in GOOD11:
             odml.save(build11(odml, spec), path, {"v11xml": "xml", "v11json": "json",
                                                   "v11yaml": "yaml"}[kind])
@@ -368,6 +376,17 @@ def run_case(case):
             finally:
                 os.chdir(old)
             shutil.rmtree(warm, ignore_errors=True)
+            if run.get("warmup_keeps") and tool in ("odmlconvert", "odmltordf") and run["out"] == "given":
+                # ... and once more into the output directory the judged run is given: its
+                # results stay, the judged run has to make a directory of its own next to them
+                old = os.getcwd()
+                os.chdir(cwd)
+                try:
+                    wmod.main((["-r"] if run["warmup"] == "-r" else []) + ["-o", given, indir])
+                except (SystemExit, Exception):
+                    pass
+                finally:
+                    os.chdir(old)
             env.capture.take()
         before = fsbox.snapshot(box)
         args = []
@@ -445,7 +464,10 @@ def run_case(case):
             if tool in ("odmlconvert", "odmltordf"):
                 root = "given_out/" if run["out"] == "given" else "cwd/"
                 tops = sorted(set(p[len(root):].split("/")[0] for p in created if p.startswith(root)))
-                ok_prefix = [root + t + "/" for t in tops if t.startswith("odmlconv_")]
+                # "newly created": the directory itself is among the created paths (results of an
+                # earlier run of the process may sit next to it and stay as they are)
+                ok_prefix = [root + t + "/" for t in tops
+                             if t.startswith("odmlconv_") and (root + t + "/") in created]
                 stray = [p for p in created + changed + removed
                          if not any(p.startswith(pre) for pre in ok_prefix)]
             else:
